@@ -1,6 +1,6 @@
 //! C14 — blocking framed I/O under fragmentation and faults.
 
-use crate::vals::{Kind, Rec, Val};
+use crate::vals::{Keyed, Kind, Rec, Val};
 use g_codec::total::{mem_mark, mem_peak_since, set_case, clear_case};
 use g_codec::util::short_hex;
 use minicbor_io::{Error, Reader, Writer};
@@ -401,6 +401,87 @@ fn writer_histories(g: &mut Gen, st: &mut Stats) -> CaseResult {
     Ok(())
 }
 
+/// Histories on ONE writer and ONE reader built with `with_buffer` (scratch buffers that arrive non-empty), mixing
+/// plain values, context-dependent values (`write_with` / `read_with`), borrowed reads (`&str`, `&ByteSlice` pointing
+/// into the reader's buffer), frames of very different sizes in both orders and reads with the wrong type.
+fn io_histories(g: &mut Gen, st: &mut Stats) -> CaseResult {
+    st.eval();
+    #[derive(Debug)]
+    enum Op { V(Val), K(Keyed) }
+    let n = 1 + g.below(8);
+    let ops: Vec<Op> = (0 .. n).map(|_| match g.below(5) {
+        0 => Op::K(Keyed(g.u32())),
+        1 => Op::V(Val::S("y".repeat(*g.pick(&[0usize, 1, 23, 24, 255, 256, 3000])))),
+        2 => Op::V(Val::B(g.bytes(300))),
+        _ => Op::V(Val::small(g))
+    }).collect();
+    // ---- writer
+    let junk = g.bytes(40);
+    let mut w = Writer::with_buffer(ShortSink { data: Vec::new(), piece: 1 + g.below(9) }, junk.clone());
+    let mut wctx: u32 = g.u32();
+    let rctx0 = wctx;
+    let mut expected: Vec<u8> = Vec::new();
+    for op in &ops {
+        let (res, frame) = match op {
+            Op::V(v) => (write_val(&mut w, v), v.frame()),
+            Op::K(k) => {
+                let e = minicbor::to_vec(k.0.wrapping_add(wctx)).expect("to_vec");
+                let before = wctx;
+                let r = w.write_with(*k, &mut wctx);
+                ensure!(wctx == before.wrapping_add(1), "context-not-threaded", "write_with left the context at {} (was {})", wctx, before);
+                let mut f = (e.len() as u32).to_be_bytes().to_vec(); f.extend_from_slice(&e);
+                (r, f)
+            }
+        };
+        match res { Ok(k) => ensure!(k == frame.len() - 4, "writer-return", "write returned {} for a {}-byte payload ({:?})", k, frame.len() - 4, op), Err(e) => fail!("writer-error", "write of {:?} failed: {}", op, e) }
+        expected.extend_from_slice(&frame);
+        ensure!(w.writer().data == expected, "writer-bytes", "after {:?} (writer built with a {}-byte scratch buffer) the sink ends with {} ; expected {}", op, junk.len(), short_hex(&w.writer().data[expected.len().saturating_sub(frame.len()).min(w.writer().data.len()) ..]), short_hex(&frame));
+    }
+    ensure!(w.flush().is_ok(), "flush", "flush failed");
+    let (sink, _scratch) = w.into_parts();
+    ensure!(sink.data == expected, "writer-bytes", "into_parts: the sink holds {} bytes, the frames are {} bytes", sink.data.len(), expected.len());
+    // ---- reader
+    let script = gen_script(g, expected.len(), true);
+    let rjunk = g.bytes(40);
+    let mut r = Reader::with_buffer(ScriptRead::new(&expected, &script), rjunk);
+    let mut rctx = rctx0;
+    let mut borrowed = 0;
+    let mut confused = 0;
+    for (i, op) in ops.iter().enumerate() {
+        match op {
+            Op::K(k) => {
+                if g.chance(40) {
+                    // a frame that holds an unsigned integer, asked for as text: decode error, frames stay aligned ... but this
+                    // frame is consumed, so the history continues with the next one (context untouched by the failed read? it is
+                    // the decoder's business; only the framing is judged here)
+                    match r.read::<&str>() { Err(Error::Decode(_)) => {}, other => fail!("bad-frame-accepted", "frame {} ({:?}) read as &str gave {:?}", i, op, other.map_err(|e| e.to_string())) }
+                    rctx = rctx.wrapping_add(1);
+                    confused += 1;
+                    continue
+                }
+                match r.read_with::<u32, Keyed>(&mut rctx) { Ok(Some(x)) => ensure!(x == *k, "wrong-value", "frame {}: read_with returned {:?}, written {:?}", i, x, k), other => fail!("read-error", "frame {} ({:?}): {:?}", i, op, other.map_err(|e| e.to_string())) }
+            }
+            Op::V(Val::S(s)) if g.bool() => {
+                match r.read::<&str>() { Ok(Some(x)) => ensure!(x == s.as_str(), "wrong-value", "frame {}: borrowed &str of {} bytes differs from the {} bytes written", i, x.len(), s.len()), other => fail!("read-error", "frame {} as &str: {:?}", i, other.map_err(|e| e.to_string())) }
+                borrowed += 1;
+            }
+            Op::V(Val::B(b)) if g.bool() => {
+                match r.read::<&minicbor::bytes::ByteSlice>() { Ok(Some(x)) => ensure!(&x[..] == &b[..], "wrong-value", "frame {}: borrowed bytes differ from what was written", i), other => fail!("read-error", "frame {} as &ByteSlice: {:?}", i, other.map_err(|e| e.to_string())) }
+                borrowed += 1;
+            }
+            Op::V(v) => match read_one(&mut r, v.kind()) { Ok(Some(x)) => ensure!(&x == v, "wrong-value", "frame {} read back as {:?}, written {:?}", i, x, v), other => fail!("read-error", "frame {} ({:?}): {:?}", i, op, other.map_err(|e| e.to_string())) }
+        }
+    }
+    ensure!(matches!(read_one(&mut r, Kind::U), Ok(None)), "end-error", "no clean end after the last frame");
+    ensure!(matches!(read_one(&mut r, Kind::S), Ok(None)), "end-error", "the clean end is not stable");
+    let (src, _buf) = r.into_parts();
+    ensure!(src.consumed() == expected.len(), "bytes-unaccounted", "{} of {} bytes consumed", src.consumed(), expected.len());
+    st.class(if confused > 0 { "io-history/with-wrong-type-read" } else if borrowed > 0 { "io-history/with-borrowed-read" } else { "io-history/plain" });
+    if ops.len() >= 2 { st.nontrivial(hash_of(&expected)) }
+    st.sample(hash_of(&expected), || format!("{} frames / {} bytes, {} borrowed reads, {} wrong-type reads", ops.len(), expected.len(), borrowed, confused));
+    Ok(())
+}
+
 pub fn subs() -> Vec<Sub> {
     let n14 = space_size(14);
     let n20 = space_size(20);
@@ -419,6 +500,8 @@ pub fn subs() -> Vec<Sub> {
               kind: SubKind::Random { quick: 200_000, thorough: 1_000_000, tape: 1024, f: limits } },
         Sub { prop: "C14", name: "writer-histories", rule: "2-9 calls on one Writer: good values interleaved with refused ones (over max_len, failing Encode, sink failing before the frame) and max_len changes; sink == frames of the successful writes after every step, returned lengths exact, nothing of a refused value leaks into a later frame; non-trivial = a successful write after a refusal",
               kind: SubKind::Random { quick: 150_000, thorough: 3_000_000, tape: 1024, f: writer_histories } },
+        Sub { prop: "C14", name: "io-histories", rule: "1-8 frames through ONE Writer::with_buffer and ONE Reader::with_buffer (scratch buffers arrive non-empty): plain values, context-dependent values via write_with/read_with (context advanced exactly once per value), borrowed reads (&str, &ByteSlice), frames of 0..3000 bytes in any order, reads with the wrong type, into_parts; sink == frames after every write, reader returns exactly the written values then a stable clean end, all bytes consumed",
+              kind: SubKind::Random { quick: 150_000, thorough: 2_000_000, tape: 2048, f: io_histories } },
         Sub { prop: "C14", name: "writer", rule: "0-5 values through a short-writing sink: bytes == concatenation of 4-byte big-endian length + encoding, write returns the payload length, a value whose Encode fails emits nothing",
               kind: SubKind::Random { quick: 150_000, thorough: 1_000_000, tape: 1024, f: writer_frames } },
     ]
